@@ -148,6 +148,129 @@ impl FixtureDatabase {
         assert(pset =~= names0);
     }
 @*/
+
+/*@ extract src/fixtures/analyzer.rs cleanup_usages_for_file
+@recv mut
+@sig
+    ensures
+        final(self).byfix() =~~= clean_byfix(old(self).byfix(), pbv(file_path)),
+        final(self).usages == old(self).usages,
+        final(self).definitions == old(self).definitions,
+        final(self).file_definitions == old(self).file_definitions,
+        final(self).definitions_version == old(self).definitions_version,
+@closure 1 |entry: RefMulti<'_, String, Vec<(PathBuf, FixtureUsage)>>| -> (s: String) ensures s@ == entry.k@
+@closure 2 |path_u: &(PathBuf, FixtureUsage)| -> (b: bool) ensures b == (pbv(&path_u.0) == pbv(file_path))
+@closurelet 2 let (path, _) = path_u;
+@closure 3 |path_u: &(PathBuf, FixtureUsage)| -> (b: bool) ensures b == (pbv(&path_u.0) != pbv(file_path))
+@closurelet 3 let (path, _) = path_u;
+@closure 4 |_k: &String, usages: &Vec<(PathBuf, FixtureUsage)>| -> (b: bool) ensures b == (usages@.len() == 0)
+@replace 1 `path == file_path` => `*path == *file_path`
+@replace 1 `path != file_path` => `*path != *file_path`
+@after all_keys 1
+    let ghost b0 = self.usage_by_fixture.m();
+    let ghost mut pset: Set<Seq<char>> = Set::empty();
+    proof {
+        assert(forall|i: int| 0 <= i < all_keys@.len() ==> b0.contains_key((#[trigger] all_keys@[i])@));
+        assert(forall|i: int, j: int| 0 <= i < j < all_keys@.len() ==> all_keys@[i]@ != all_keys@[j]@);
+        let ks = all_keys@.map_values(|x: String| x@);
+        assert(ks.len() == b0.dom().len());
+        assert(ks.no_duplicates());
+        lemma_injective_seq_covers(ks, b0.dom());
+        assert forall|k: Seq<char>| b0.contains_key(k) implies exists|i: int| 0 <= i < all_keys@.len() && (#[trigger] all_keys@[i])@ == k by {
+            assert(ks.contains(k));
+            let i = choose|i: int| 0 <= i < ks.len() && ks[i] == k;
+            assert(all_keys@[i]@ == k);
+        }
+    }
+@loopvar 1 it
+@loop 1
+    invariant
+        b0 == old(self).usage_by_fixture.m(),
+        forall|i: int| 0 <= i < it.seq().len() ==> b0.contains_key((#[trigger] it.seq()[i])@),
+        forall|i: int, j: int| 0 <= i < j < it.seq().len() ==> it.seq()[i]@ != it.seq()[j]@,
+        forall|k: Seq<char>| b0.contains_key(k) ==> exists|i: int| 0 <= i < it.seq().len() && (#[trigger] it.seq()[i])@ == k,
+        forall|j: int| 0 <= j < it.index@ ==> pset.contains((#[trigger] it.seq()[j])@),
+        forall|k: Seq<char>| pset.contains(k) ==> exists|j: int| 0 <= j < it.index@ && (#[trigger] it.seq()[j])@ == k,
+        self.byfix() =~~= clean_byfix_names(old(self).byfix(), pbv(file_path), pset),
+        self.usages == old(self).usages,
+        self.definitions == old(self).definitions,
+        self.file_definitions == old(self).file_definitions,
+        self.definitions_version == old(self).definitions_version,
+@loopstart 1
+    let ghost m1 = self.usage_by_fixture.m();
+@after had_usages 1
+    proof {
+        let keep = pair_keep(pbv(file_path));
+        if !had_usages {
+            assert forall|i: int| 0 <= i < usages@.len() implies keep(#[trigger] usages@[i]) by { let y = usages@.as_ref()[i]; }
+            lemma_filter_all(usages@, keep);
+        }
+    }
+@after should_remove 1
+    let ghost m2 = self.usage_by_fixture.m();
+    proof {
+        let f = pbv(file_path);
+        let nv = fixture_name@;
+        let keep = pair_keep(f);
+        if m1.contains_key(nv) {
+            lemma_filter_map_commute(m1[nv]@, |e: (PathBuf, FixtureUsage)| (pbv(&e.0), uv(&e.1)), keep, pair_not_in_file(f));
+            assert(m2[nv]@ == m1[nv]@.filter(keep));
+            assert(m2 =~= m1.insert(nv, m2[nv]));
+            assert(should_remove == (m2[nv]@.len() == 0));
+        } else {
+            assert(m2 == m1);
+            assert(!should_remove);
+        }
+    }
+@loopend 1
+    proof {
+        let f = pbv(file_path);
+        let nv = fixture_name@;
+        let m3 = self.usage_by_fixture.m();
+        assert(!pset.contains(nv));
+        if m1.contains_key(nv) && m2[nv]@.len() == 0 {
+            assert(m3 =~= m2.remove(nv));
+        } else {
+            assert(m3 == m2);
+        }
+        let d0 = old(self).byfix();
+        let d1 = byfix_view(m1);
+        let d3 = self.byfix();
+        let target = clean_byfix_names(d0, f, pset.insert(nv));
+        assert(d1 =~~= clean_byfix_names(d0, f, pset));
+        assert forall|k: Seq<char>| d3.contains_key(k) <==> target.contains_key(k) by {
+            if k == nv {
+                if m1.contains_key(nv) { assert(d1.contains_key(nv)); assert(d0.contains_key(nv)); assert(d1[nv] == d0[nv]); }
+                else { assert(!d1.contains_key(nv)); }
+            } else {
+                assert(d3.contains_key(k) == d1.contains_key(k));
+            }
+        }
+        assert forall|k: Seq<char>| d3.contains_key(k) implies d3[k] =~= target[k] by {
+            if k == nv { assert(d1[nv] == d0[nv]); } else { assert(d3[k] == d1[k]); }
+        }
+        assert(d3 =~~= target);
+        pset = pset.insert(nv);
+    }
+@end
+    proof {
+        assert(pset =~= old(self).byfix().dom());
+    }
+@*/
+}
+
+pub open spec fn pair_keep(f: PV) -> spec_fn((PathBuf, FixtureUsage)) -> bool { |e: (PathBuf, FixtureUsage)| pbv(&e.0) != f }
+pub open spec fn pair_not_in_file(f: PV) -> spec_fn((PV, UseV)) -> bool { |e: (PV, UseV)| e.0 != f }
+/// what cleanup_usages_for_file does to the reverse index: every bucket loses its entries filed under
+/// file f; buckets that are (or become) empty disappear
+pub open spec fn clean_byfix(m: Map<Seq<char>, Seq<(PV, UseV)>>, f: PV) -> Map<Seq<char>, Seq<(PV, UseV)>> {
+    Map::new(m.dom().filter(|k: Seq<char>| m[k].filter(pair_not_in_file(f)).len() > 0),
+             |k: Seq<char>| m[k].filter(pair_not_in_file(f)))
+}
+
+pub open spec fn clean_byfix_names(m: Map<Seq<char>, Seq<(PV, UseV)>>, f: PV, names: Set<Seq<char>>) -> Map<Seq<char>, Seq<(PV, UseV)>> {
+    Map::new(m.dom().filter(|k: Seq<char>| names.contains(k) ==> m[k].filter(pair_not_in_file(f)).len() > 0),
+             |k: Seq<char>| if names.contains(k) { m[k].filter(pair_not_in_file(f)) } else { m[k] })
 }
 
 pub open spec fn not_in_file(f: PV) -> spec_fn(DefV) -> bool { |d: DefV| d.file != f }
